@@ -1,6 +1,6 @@
 """C19 configuration for ./check (see checks/propcfg.py for the keys)."""
 CFG = {
-    "modules": ["VaxisModel.Props.C19", "VaxisModel.Props.C19Tie", "VaxisModel.Props.C19Exec", "VaxisModel.Props.C19Pager", "VaxisModel.Props.C19Wid", "VaxisModel.Witness.F49", "VaxisModel.Witness.F50", "VaxisModel.Witness.F119", "VaxisModel.Witness.F119i"],
+    "modules": ["VaxisModel.Props.C19", "VaxisModel.Props.C19Tie", "VaxisModel.Props.C19Exec", "VaxisModel.Props.C19Pager", "VaxisModel.Props.C19Wid", "VaxisModel.Props.C19C15", "VaxisModel.Witness.F49", "VaxisModel.Witness.F50", "VaxisModel.Witness.F119", "VaxisModel.Witness.F119i"],
     "extractors": ["C19", "C11"],
     "drivers": ["C19"],
     "stateful": True,
